@@ -60,7 +60,7 @@ def extern_assume(a, ps):
 
 
 def nest_assume(a, ps):
-    A = [a[0] == ps, z3.Or(a[9] == 0, a[9] == 3)] + [z3.ULE(a[i], 1) for i in (4, 6, 8, 12, 15, 17)] + [z3.ULE(a[11], 7)]
+    A = [a[0] == ps, z3.Or(a[9] == 0, a[9] == 3)] + [z3.ULE(a[i], 1) for i in (4, 6, 8, 12, 15, 17, 19)] + [z3.ULE(a[11], 7)]
     return A
 
 
@@ -86,7 +86,7 @@ def slices(tier, rng):
         out.append(Slice('impl-ps%d' % ps, 't_impl', 12, lambda a, ps=ps: impl_assume(a, ps), opts={'must_reach': ['ok', 'err']}))
         out.append(Slice('extern-ps%d' % ps, 't_extern', 10, lambda a, ps=ps: extern_assume(a, ps), opts={'must_reach': ['ok', 'err']}))
         if tier != 'quick':
-            out.append(Slice('nest-ps%d' % ps, 't_nest', 19, lambda a, ps=ps: nest_assume(a, ps),
+            out.append(Slice('nest-ps%d' % ps, 't_nest', 20, lambda a, ps=ps: nest_assume(a, ps),
                              opts={'must_reach': ['ok', 'err'], 'time_limit': 1200}))
     return out
 
